@@ -1393,11 +1393,9 @@ def directional_hamming_distance(reference_intervals, estimated_intervals):
     util.validate_intervals(reference_intervals)
 
     # make sure chord intervals do not overlap
-    if (
-        len(reference_intervals) > 1
-        and (reference_intervals[:-1, 1] > reference_intervals[1:, 0]).any()
-    ):
-        raise ValueError("Chord Intervals must not overlap")
+    for intervals in [reference_intervals, estimated_intervals]:
+        if len(intervals) > 1 and (intervals[:-1, 1] > intervals[1:, 0]).any():
+            raise ValueError("Chord Intervals must not overlap")
 
     est_ts = np.unique(estimated_intervals.flatten())
     seg = 0.0
